@@ -355,7 +355,17 @@ func (r *RDir) Persist(kind string, id uint64, w index.WriterTo, closeCh chan st
 	}
 	r.opMu.RLock()
 	err := r.Inner.Persist(kind, id, tw, closeCh)
+	leftover := int64(-1)
+	if err != nil && r.Path != "" {
+		// a persist that reports failure must leave nothing under the item's name
+		if st, serr := os.Stat(filepath.Join(r.Path, FileName(kind, id))); serr == nil {
+			leftover = st.Size()
+		}
+	}
 	r.opMu.RUnlock()
+	if leftover >= 0 {
+		r.add(&Ev{Role: role, Op: "mark", Tag: "failed-persist-left-file", Kind: kind, ID: id, N: int(leftover)})
+	}
 	e := &Ev{Role: role, Op: "persist-end", Kind: kind, ID: id, Err: errStr(err), Ref: begin.Seq, Tee: append([]byte(nil), tw.tee.Bytes()...)}
 	if err == nil {
 		// what did the real directory leave there?
